@@ -415,6 +415,29 @@ func BuildBase(name string, cfg Config, seed uint32) (*Base, error) {
 		bb.key("n5", 0x00BB0005) // new key that lands in bucket 5 after the split (bucket 1 before)
 		bb.key("n3", 0x00CC0003) // new key for bucket 3
 		return bb.finish([]string{"mv", "st", "b0", "b4", "n1", "n5", "n3"}, []string{"g010", "g050", "g100"})
+	case "EM2":
+		// a directory "bak" holds a backup taken when the log was [put a, put b] in 00000-1.psg; afterwards the
+		// database was emptied, compacted (every segment removed) and closed: the next session starts the log
+		// again at 00000-1.psg, so a later backup into "bak" rewrites a file of the same name with less data
+		bb.key("a", 0x11110000)
+		bb.key("b", 0x22220001)
+		bb.key("c", 0x11110000)
+		bb.key("d", 0x33330002)
+		bb.s.FixedBackupDir = "bak"
+		bb.put("a")
+		bb.put("b")
+		if bb.err == nil {
+			bb.err = bb.s.Apply(Op{Kind: Backup})
+		}
+		bb.del("a")
+		bb.del("b")
+		if bb.err == nil {
+			bb.err = bb.s.Apply(Op{Kind: Compact})
+		}
+		if bb.err == nil && len(bb.s.DB.VerifSegments()) != 0 {
+			bb.err = fmt.Errorf("base EM2: compaction left %d segments", len(bb.s.DB.VerifSegments()))
+		}
+		return bb.finish([]string{"a", "b", "c", "d"}, nil)
 	case "LG":
 		// a sealed segment with a LEGACY file name (no sequence id: "00000.psg", still accepted when opening) and
 		// a current segment with a modern name
